@@ -221,7 +221,11 @@ def run(ck, facts, tier):
     from rules import c13, c14
     nd, tb = list(ck.not_decided), list(ck.trusted)
     c13.run(ck, facts, tier)
-    c14.run(ck, facts, tier)
+    nested, ck._c14_nested = getattr(ck, "_c14_nested", False), True
+    try:
+        c14.run(ck, facts, tier)
+    finally:
+        ck._c14_nested = nested
     ck.not_decided[:], ck.trusted[:] = nd, tb
     ck.not_decided += ["interpolation of the data and polynomial reproduction as numerical facts (they rest on C13's undecided numerical correctness of the solve)",
                        "sensitivity of the solved spline to each datum (linearity of the solve in y is structural: fdsolve is generic in T and only combines y linearly — not separately evaluated)"]
